@@ -5,9 +5,11 @@ import NdnProofs.Lemmas.CodecRT
 `Ndn.Codec` is a generic interpreter of TLV model classes (`List Schema`) and instances
 (`List Value`): `encLenFields` = `TlvModel.encoded_length`, `encFields` = `TlvModel.encode`,
 `parse` = `TlvModel.parse`.  Hypotheses: `wfTop fs` (decidable: legal `fixed_len`, Name fields of
-type 7, pairwise distinct Type numbers inside each model, no MapField, no marker fields) and
-`fitsFs fs vs` (decidable "legal assignment": one value per field, text is valid UTF-8, name
-components are single TLV elements, lists hold present values).  Everything is for **all**
+type 7, pairwise distinct Type numbers inside each model, a MapField has a UintField/BytesField key
+(what `MapField.__init__` accepts) and an integer / boolean / bytes / name / sub-model value whose Type
+differs from the key's, no marker fields) and `fitsFs fs vs` (decidable "legal assignment": one value
+per field, text is valid UTF-8, name components are single TLV elements, lists hold present values,
+dicts hold present keys and values with pairwise different keys).  Everything is for **all**
 schemas and values (structural induction over the schema/value trees and field lists).
 -/
 namespace Ndn.C08
@@ -175,11 +177,12 @@ theorem uint_smallest_width (v : Nat) (hv : v < 2 ^ 64) :
   · intro w hw hlt
     rcases hw with h | h | h | h <;> subst h <;> simp only [Nat.reducePow] at hlt <;> (repeat' split) <;> omega
 
-/-- **parse_enc_roundtrip_partial.** Decoding what a model encodes yields an equal model, for every
-    schema satisfying `wfTop` and every legal assignment.
-    *Partial*: `wfTop` excludes `MapField` (not used by any shipped model) and marker fields (whose
-    recorded offsets are compared in the packet properties C01/C02). -/
-theorem parse_enc_roundtrip_partial (fs : List Schema) (vs : List Value) (b : Bytes) (ic : Bool)
+/-- **parse_enc_roundtrip.** Decoding what a model encodes yields an equal model, for every schema
+    satisfying `wfTop` — any nesting of integer, boolean, byte-string, text, name, sub-model, repeated
+    and map fields — and every legal assignment.
+    (`wfTop` excludes only marker pseudo-fields, which carry no value: the offsets they record are
+    compared in the packet properties C01/C02.) -/
+theorem parse_enc_roundtrip (fs : List Schema) (vs : List Value) (b : Bytes) (ic : Bool)
     (hw : wfTop fs = true) (hfit : fitsFs fs vs = true) (h : encFields fs vs = .ok b) :
     parse fs ic b = .ok vs := by
   simp only [wfTop, Bool.and_eq_true] at hw
@@ -191,55 +194,108 @@ theorem parse_enc_roundtrip_partial (fs : List Schema) (vs : List Value) (b : By
   simp only [List.nil_append] at hd
   rw [parse, this, hd]
 
-/-- **unknown_noncritical_skipped.** The encoding splits into elements (`items`) such that an
-    unrecognised element whose Type is even (or any unrecognised Type when critical fields are
-    ignored), inserted at *any* element boundary — before, between (also inside a run of a repeated
-    field) or after — leaves the decoded model unchanged. -/
+/-- the name this theorem had while MapField was not covered (kept for the packet properties that cite it) -/
+theorem parse_enc_roundtrip_partial (fs : List Schema) (vs : List Value) (b : Bytes) (ic : Bool)
+    (hw : wfTop fs = true) (hfit : fitsFs fs vs = true) (h : encFields fs vs = .ok b) :
+    parse fs ic b = .ok vs := parse_enc_roundtrip fs vs b ic hw hfit h
+
+/-- **unknown_noncritical_skipped.** The encoding splits into `items` (one element of a plain or
+    repeated field, or the key element + value element of one map entry) such that
+    (1) an unrecognised element whose Type is even (or any unrecognised Type when critical fields are
+    ignored), inserted at *any* boundary between items — before, between (also inside a run of a repeated
+    field or between two entries of a map) or after — leaves the decoded model unchanged, and
+    (2) so does an element inserted between the key and the value of a map entry; there the decoder
+    looks only for the value's Type, so *every* other even Type (recognised elsewhere or not) is skipped. -/
 theorem unknown_noncritical_skipped (fs : List Schema) (vs : List Value) (b : Bytes) (ic : Bool)
     (hw : wfTop fs = true) (hfit : fitsFs fs vs = true) (h : encFields fs vs = .ok b) :
     ∃ items : List Item, encItems items = b ∧
-      ∀ (l1 l2 : List Item) (t : Nat) (x : Bytes), items = l1 ++ l2 →
+      (∀ (l1 l2 : List Item) (t : Nat) (x : Bytes), items = l1 ++ l2 →
         t < 2 ^ 64 → x.length < 2 ^ 64 → t ∉ typs fs → (t % 2 = 0 ∨ ic = true) →
-        parse fs ic (encItems l1 ++ tlv t x ++ encItems l2) = .ok vs := by
+        parse fs ic (encItems l1 ++ tlv t x ++ encItems l2) = .ok vs) ∧
+      (∀ (l1 l2 : List Item) (it : Item) (m : MapVal) (t : Nat) (x : Bytes), items = l1 ++ it :: l2 →
+        it.mv = some m → t < 2 ^ 64 → x.length < 2 ^ 64 → t ≠ m.t → (t % 2 = 0 ∨ ic = true) →
+        parse fs ic (encItems l1 ++ (tlv it.t it.body ++ tlv t x ++ tlv m.t m.body) ++ encItems l2) = .ok vs) := by
   simp only [wfTop, Bool.and_eq_true] at hw
   obtain ⟨items, hok, henc, hfold⟩ := rt_suffix [] fs vs b hw.1 (by simpa using hw.2) hfit h
-  refine ⟨items, henc, ?_⟩
-  intro l1 l2 t x hsplit ht hx hnot hcrit
-  subst hsplit
-  obtain ⟨ok1, ok2⟩ := ItemsOK_split fs l1 l2 0 (by simpa using hok)
-  have hd := hfold [] rfl
-  simp only [List.nil_append, List.foldl_append] at hd
-  have hl1 := encItems_len_ge l1
-  unfold parse
-  rw [List.append_assoc, loop_prefix fs ic hw.1 hw.2 _ l1 _ 0 0 _ ok1 (by simp)]
-  have hfu : (encItems l1 ++ (tlv t x ++ encItems l2)).length + 1 - l1.length =
-      ((encItems l1 ++ (tlv t x ++ encItems l2)).length - l1.length) + 1 := by
-    simp; omega
-  rw [hfu, junk_skip fs ic t x _ _ _ _ _ ht hx hnot hcrit]
-  rw [loop_items fs ic hw.1 hw.2 l2 _ _ _ _ ok2 (by simp [tlv_length]; have := tlNumSize_pos t; omega)]
-  rw [hd]
+  refine ⟨items, henc, ?_, ?_⟩
+  · intro l1 l2 t x hsplit ht hx hnot hcrit
+    subst hsplit
+    obtain ⟨ok1, ok2⟩ := ItemsOK_split fs l1 l2 0 (by simpa using hok)
+    have hd := hfold [] rfl
+    simp only [List.nil_append, List.foldl_append] at hd
+    have hl1 := encItems_len_ge l1
+    unfold parse
+    rw [List.append_assoc, loop_prefix fs ic hw.1 hw.2 _ l1 _ 0 0 _ ok1 (by simp)]
+    have hfu : (encItems l1 ++ (tlv t x ++ encItems l2)).length + 1 - l1.length =
+        ((encItems l1 ++ (tlv t x ++ encItems l2)).length - l1.length) + 1 := by
+      simp; omega
+    rw [hfu, junk_skip fs ic t x _ _ _ _ _ ht hx hnot hcrit]
+    rw [loop_items fs ic hw.1 hw.2 l2 _ _ _ _ ok2 (by simp [tlv_length]; have := tlNumSize_pos t; omega)]
+    rw [hd]
+  · intro l1 l2 it m t x hsplit hmv ht hx hne hcrit
+    subst hsplit
+    obtain ⟨ok1, hposit, hit, ok2⟩ := ItemsOK_split fs l1 (it :: l2) 0 (by simpa using hok)
+    have hd := hfold [] rfl
+    simp only [List.nil_append, List.foldl_append, List.foldl_cons] at hd
+    have hl1 := encItems_len_ge l1
+    have hshape : encItems l1 ++ (tlv it.t it.body ++ tlv t x ++ tlv m.t m.body) ++ encItems l2 =
+        encItems l1 ++ (tlv it.t it.body ++ (tlv t x ++ (tlv m.t m.body ++ encItems l2))) := by
+      simp [List.append_assoc]
+    have h1 := tlNumSize_pos it.t; have h3 := tlNumSize_pos t; have h5 := tlNumSize_pos m.t
+    unfold parse
+    rw [hshape, loop_prefix fs ic hw.1 hw.2 _ l1 _ 0 0 _ ok1 (by simp)]
+    have hfu : (encItems l1 ++ (tlv it.t it.body ++ (tlv t x ++ (tlv m.t m.body ++ encItems l2)))).length + 1
+          - l1.length =
+        ((encItems l1 ++ (tlv it.t it.body ++ (tlv t x ++ (tlv m.t m.body ++ encItems l2)))).length
+          - l1.length) + 1 := by
+      simp; omega
+    rw [hfu, loop_step_gap fs ic hw.2 it m hmv t x _ _ _ _ _ hposit hit ht hx hne hcrit (by simp; omega),
+      skipMarkers_id fs _ _ _ _ hw.1,
+      loop_items fs ic hw.1 hw.2 l2 _ _ _ _ ok2 (by simp [tlv_length]; omega)]
+    rw [hd]
 
-/-- **unknown_critical_rejected.** An unrecognised element whose Type is odd, inserted at any element
-    boundary, makes decoding fail with `DecodeError` (unless critical fields are ignored). -/
+/-- **unknown_critical_rejected.** An unrecognised element whose Type is odd, inserted (1) at any
+    boundary between items or (2) between the key and the value of a map entry (there: any odd Type
+    other than the value's), makes decoding fail with `DecodeError` (unless critical fields are
+    ignored). -/
 theorem unknown_critical_rejected (fs : List Schema) (vs : List Value) (b : Bytes)
     (hw : wfTop fs = true) (hfit : fitsFs fs vs = true) (h : encFields fs vs = .ok b) :
     ∃ items : List Item, encItems items = b ∧
-      ∀ (l1 l2 : List Item) (t : Nat) (x : Bytes), items = l1 ++ l2 →
+      (∀ (l1 l2 : List Item) (t : Nat) (x : Bytes), items = l1 ++ l2 →
         t < 2 ^ 64 → x.length < 2 ^ 64 → t ∉ typs fs → t % 2 = 1 →
-        parse fs false (encItems l1 ++ tlv t x ++ encItems l2) = .error .decodeError := by
+        parse fs false (encItems l1 ++ tlv t x ++ encItems l2) = .error .decodeError) ∧
+      (∀ (l1 l2 : List Item) (it : Item) (m : MapVal) (t : Nat) (x : Bytes), items = l1 ++ it :: l2 →
+        it.mv = some m → t < 2 ^ 64 → x.length < 2 ^ 64 → t ≠ m.t → t % 2 = 1 →
+        parse fs false (encItems l1 ++ (tlv it.t it.body ++ tlv t x ++ tlv m.t m.body) ++ encItems l2)
+          = .error .decodeError) := by
   simp only [wfTop, Bool.and_eq_true] at hw
   obtain ⟨items, hok, henc, _⟩ := rt_suffix [] fs vs b hw.1 (by simpa using hw.2) hfit h
-  refine ⟨items, henc, ?_⟩
-  intro l1 l2 t x hsplit ht hx hnot hodd
-  subst hsplit
-  obtain ⟨ok1, _⟩ := ItemsOK_split fs l1 l2 0 (by simpa using hok)
-  have hl1 := encItems_len_ge l1
-  unfold parse
-  rw [List.append_assoc, loop_prefix fs false hw.1 hw.2 _ l1 _ 0 0 _ ok1 (by simp)]
-  have hfu : (encItems l1 ++ (tlv t x ++ encItems l2)).length + 1 - l1.length =
-      ((encItems l1 ++ (tlv t x ++ encItems l2)).length - l1.length) + 1 := by
-    simp; omega
-  rw [hfu, junk_reject fs t x _ _ _ _ _ ht hx hnot hodd]
+  refine ⟨items, henc, ?_, ?_⟩
+  · intro l1 l2 t x hsplit ht hx hnot hodd
+    subst hsplit
+    obtain ⟨ok1, _⟩ := ItemsOK_split fs l1 l2 0 (by simpa using hok)
+    have hl1 := encItems_len_ge l1
+    unfold parse
+    rw [List.append_assoc, loop_prefix fs false hw.1 hw.2 _ l1 _ 0 0 _ ok1 (by simp)]
+    have hfu : (encItems l1 ++ (tlv t x ++ encItems l2)).length + 1 - l1.length =
+        ((encItems l1 ++ (tlv t x ++ encItems l2)).length - l1.length) + 1 := by
+      simp; omega
+    rw [hfu, junk_reject fs t x _ _ _ _ _ ht hx hnot hodd]
+  · intro l1 l2 it m t x hsplit hmv ht hx hne hodd
+    subst hsplit
+    obtain ⟨ok1, hposit, hit, _⟩ := ItemsOK_split fs l1 (it :: l2) 0 (by simpa using hok)
+    have hl1 := encItems_len_ge l1
+    have hshape : encItems l1 ++ (tlv it.t it.body ++ tlv t x ++ tlv m.t m.body) ++ encItems l2 =
+        encItems l1 ++ (tlv it.t it.body ++ (tlv t x ++ (tlv m.t m.body ++ encItems l2))) := by
+      simp [List.append_assoc]
+    unfold parse
+    rw [hshape, loop_prefix fs false hw.1 hw.2 _ l1 _ 0 0 _ ok1 (by simp)]
+    have hfu : (encItems l1 ++ (tlv it.t it.body ++ (tlv t x ++ (tlv m.t m.body ++ encItems l2)))).length + 1
+          - l1.length =
+        ((encItems l1 ++ (tlv it.t it.body ++ (tlv t x ++ (tlv m.t m.body ++ encItems l2)))).length
+          - l1.length) + 1 := by
+      simp; omega
+    rw [hfu, loop_step_gap_reject fs hw.2 it m hmv t x _ _ _ _ _ hposit hit ht hx hne hodd (by simp; omega)]
 
 /-! ### non-vacuity -/
 
@@ -257,5 +313,34 @@ example : encFields exFs exVs =
 example : parse exFs false
     [0x81, 2, 1, 44, 7, 3, 8, 1, 97, 0x83, 4, 0x85, 2, 0xC3, 0xA9, 0x87, 1, 1, 0x87, 4, 0, 1, 0, 0] = .ok exVs := by
   rfl
+
+/-- a model with MapFields: `{ a = UintField(0x81), m = MapField(BytesField(0x85, is_string), UintField(0x87)),
+    sub = ModelField(0x91, { d = MapField(UintField(0x89), ModelField(0x8b, {n = NameField()})) }) }`
+    with `m = {"k": 5, "é": 256}`, `sub.d = {7: {n = /a}}` -/
+def exMapFs : List Schema :=
+  [.uint 0x81 none, .map (.bytes 0x85 true) (.uint 0x87 none),
+   .model 0x91 [.map (.uint 0x89 none) (.model 0x8b [.name 7] false)] false]
+def exMapVs : List Value :=
+  [.uint 1, .map [(.bytes [107], .uint 5), (.bytes [0xC3, 0xA9], .uint 256)],
+   .model [.map [(.uint 7, .model [.name [[8, 1, 97]]])]]]
+def exMapWire : Bytes :=
+  [0x81, 1, 1, 0x85, 1, 107, 0x87, 1, 5, 0x85, 2, 0xC3, 0xA9, 0x87, 2, 1, 0,
+   0x91, 10, 0x89, 1, 7, 0x8b, 5, 7, 3, 8, 1, 97]
+
+example : wfTop exMapFs = true := by decide
+example : fitsFs exMapFs exMapVs = true := by decide
+example : encFields exMapFs exMapVs = .ok exMapWire := by rfl
+example : parse exMapFs false exMapWire = .ok exMapVs := by rfl
+/-- an unknown non-critical element (Type 0x64) between the first key and its value is skipped … -/
+example : parse exMapFs false
+    [0x81, 1, 1, 0x85, 1, 107, 0x64, 1, 0, 0x87, 1, 5, 0x85, 2, 0xC3, 0xA9, 0x87, 2, 1, 0,
+     0x91, 10, 0x89, 1, 7, 0x8b, 5, 7, 3, 8, 1, 97] = .ok exMapVs := by rfl
+/-- … and a critical one (Type 0x65) there is rejected -/
+example : parse exMapFs false
+    [0x81, 1, 1, 0x85, 1, 107, 0x65, 1, 0, 0x87, 1, 5, 0x85, 2, 0xC3, 0xA9, 0x87, 2, 1, 0,
+     0x91, 10, 0x89, 1, 7, 0x8b, 5, 7, 3, 8, 1, 97] = .error .decodeError := by rfl
+/-- a dict with a repeated key is not a legal assignment (a Python dict cannot hold one) -/
+example : fitsFs exMapFs [.uint 1, .map [(.bytes [107], .uint 5), (.bytes [107], .uint 6)], .model [.map []]]
+    = false := by decide
 
 end Ndn.C08
